@@ -195,6 +195,112 @@ Definition spec_planned (i : cinput) (o : cobs) : bool :=
   && forallb (ofile_okb (eff_size (ci_size i))) (co_outs o)
   && outs_named_okb (ci_fs i) grp (co_outs o).
 
+(* ---------- roll-over at the writer's block-count limit (large cases) ---------- *)
+
+(* Files with tens of thousands of blocks are too large for the quadratic merge of the
+   shared layer-A model, so these cases are judged on the implementation's observation only
+   (spec), and the model of Compactor.write/writeNewFiles ([split_files]) is compared with
+   the implementation on the implementation's OWN block stream: cutting the concatenation
+   of all output blocks with the model's roll-over rule must give exactly the observed
+   files, named (G, S+1), (G, S+2), ... *)
+Definition ofile_items (o : ofile) : list (key * block) := items_of (strip (snd o)).
+
+Fixpoint expected_names (gen seq : N) (n : nat) : list name :=
+  match n with
+  | O => []
+  | S m => (gen, (seq + 1)%N) :: expected_names gen (seq + 1)%N m
+  end.
+
+Fixpoint max_gen_seq_names (l : list name) (acc : name) : name :=
+  match l with
+  | [] => acc
+  | n :: r =>
+      let acc1 := if (fst acc <? fst n)%N then n else acc in
+      max_gen_seq_names r (if (fst n =? fst acc1)%N && (snd acc1 <? snd n)%N then (fst acc1, snd n) else acc1)
+  end.
+
+Definition seg_eqb (a b : list (key * block)) : bool :=
+  list_eqb (fun x y => key_eqb (fst x) (fst y) && tvs_eqb (snd x) (snd y)) a b.
+
+Definition agree_roll (group : list name) (outs : list ofile) : bool :=
+  let ms := max_gen_seq_names group (0%N, 0%N) in
+  list_eqb name_eqb (map fst outs) (expected_names (fst ms) (snd ms) (length outs))
+  && list_eqb seg_eqb (map ofile_items outs)
+              (split_files c09_max_index_entries [] None 0%N (flat_map ofile_items outs)).
+
+Definition spec_roll (size : Z) (fsn group : list name) (err : N) (before : reads) (outs : list ofile) (after : reads) : bool :=
+  (err =? 0)%N && reads_eqb before after
+  && forallb (ofile_okb (eff_size size)) outs
+  && forallb (fun o => forallb (fun g => name_ltb g (fst o)) group
+                       && negb (existsb (fun n => name_eqb n (fst o) && negb (existsb (name_eqb n) group)) fsn)) outs
+  && chain name_ltb (map fst outs).
+
+(* ---------- a whole-series delete that lands while the compaction is running ---------- *)
+
+(* FileStore.Delete(key) (all files get a full-range tombstone for the key) issued right
+   after the compaction has created its block iterators.  Whatever the compaction does —
+   fail ("delete during iteration") leaving its inputs, or succeed — every key that was
+   not deleted must read as before.  (What the deleted key reads is C10's subject.) *)
+Definition delete_key (k : key) (f : tsmfile) : tsmfile :=
+  {| f_gen := f_gen f; f_seq := f_seq f; f_data := f_data f;
+     f_tombs := f_tombs f ++ [(k, (min_int64, max_int64))] |}.
+
+Record dobs := {
+  do_err : N; do_outs : list ofile; do_live : list name; do_tmp : N;
+  do_before : reads; do_after : reads
+}.
+
+Definition drop_key (k : key) (r : reads) : reads := filter (fun x => negb (key_eqb (fst x) k)) r.
+
+Definition deleted_fs (i : cinput) (k : key) : list tsmfile := map (delete_key k) (ci_fs i).
+Definition deleted_input (i : cinput) (k : key) : cinput :=
+  {| ci_size := ci_size i; ci_fast := ci_fast i; ci_lo := ci_lo i; ci_hi := ci_hi i; ci_keys := ci_keys i;
+     ci_fs := deleted_fs i k; ci_group := ci_group i |}.
+
+(* outcome 1: the compaction fails; the directory is the input directory after the delete *)
+Definition model_delete_fail (i : cinput) (k : key) : dobs :=
+  let d := abort_compaction (dir_compacted (deleted_fs i k) (compact (ci_size i) (ci_members (deleted_input i k)))) in
+  {| do_err := 1%N; do_outs := []; do_live := map fname (sort_files (reopen d)); do_tmp := N.of_nat (length (d_tmp d));
+     do_before := model_reads (ci_fs i) empty_cache (ci_keys i) (ci_lo i) (ci_hi i);
+     do_after := model_reads (reopen d) empty_cache (ci_keys i) (ci_lo i) (ci_hi i) |}.
+
+(* outcome 2: it succeeds, on the files as they are after the delete *)
+Definition model_delete_ok (i : cinput) (k : key) : dobs :=
+  let m := model_compact (deleted_input i k) in
+  let grp := ci_members (deleted_input i k) in
+  {| do_err := 0%N; do_outs := co_outs m;
+     do_live := map fname (sort_files (replace_files (deleted_fs i k) grp (compact (ci_size i) grp)));
+     do_tmp := 0%N;
+     do_before := model_reads (ci_fs i) empty_cache (ci_keys i) (ci_lo i) (ci_hi i);
+     do_after := co_after m |}.
+
+Definition dobs_eqb (a b : dobs) : bool :=
+  Bool.eqb (do_err a =? 0)%N (do_err b =? 0)%N && list_eqb content_eqb (do_outs a) (do_outs b)
+  && list_eqb name_eqb (do_live a) (do_live b) && (do_tmp a =? do_tmp b)%N
+  && reads_eqb (do_before a) (do_before b) && reads_eqb (do_after a) (do_after b).
+
+(* which outcome is forced: a member that still has values of the key makes the block
+   iterator notice the delete; if no member lists the key at all nothing is noticed *)
+Definition must_fail (i : cinput) (k : key) : bool :=
+  existsb (fun f => negb (Nat.eqb (length (file_values f k)) 0)) (ci_members i).
+Definition must_succeed (i : cinput) (k : key) : bool :=
+  negb (existsb (fun f => existsb (fun kv => key_eqb (fst kv) k) (f_data f)) (ci_members i)).
+
+Definition agree_delete (i : cinput) (k : key) (o : dobs) : bool :=
+  if (do_err o =? 0)%N then negb (must_fail i k) && dobs_eqb (model_delete_ok i k) o
+  else negb (must_succeed i k) && dobs_eqb (model_delete_fail i k) o.
+
+Definition spec_delete (i : cinput) (k : key) (o : dobs) : bool :=
+  let grp := ci_members (deleted_input i k) in
+  if (do_err o =? 0)%N then
+    negb (hyp_okb (deleted_fs i k) grp (map fst (do_outs o)))
+    || (reads_eqb (drop_key k (do_before o)) (drop_key k (do_after o))
+        && forallb (ofile_okb (eff_size (ci_size i))) (do_outs o) && (do_tmp o =? 0)%N)
+  else
+    reads_eqb (drop_key k (do_before o)) (drop_key k (do_after o))
+    && Nat.eqb (length (do_outs o)) 0 && (do_tmp o =? 0)%N
+    && list_eqb name_eqb (map fname (sort_files (ci_fs i))) (do_live o).
+
 (* ---------- crash in the middle of FileStore.replace ---------- *)
 
 Record xobs := {
@@ -349,6 +455,11 @@ Inductive case :=
 | CSnap (keys : list key) (lo hi : Z) (fs : list rfile) (snap hot : list (N * list tv)) (gen : N)
         (err : N) (outs : list rofile) (files_before files_after : rreads) (cache_before cache_after : list (list tv))
 | CPlan (keys : list key) (fs : list rfile) (groups : list (list name))
+(* large roll-over case: names of the directory and the group, observation only *)
+| CRoll (keys : list key) (size : Z) (fsn group : list name) (err : N) (before : rreads) (outs : list rofile) (after : rreads)
+(* FileStore.Delete(dkey) issued while the compaction of [group] is running *)
+| CDelete (keys : list key) (size : Z) (fast : bool) (lo hi : Z) (fs : list rfile) (group : list name) (dkey : N)
+          (err : N) (outs : list rofile) (live : list name) (tmp : N) (before after : rreads)
 (* a group planned by the real DefaultPlanner and then compacted: no hypothesis on the group *)
 | CPlanned (keys : list key) (size : Z) (fast : bool) (lo hi : Z) (fs : list rfile) (group : list name)
            (err : N) (before : rreads) (outs : list rofile) (after : rreads).
@@ -363,6 +474,9 @@ Fixpoint rl_nat (s d : Z) (n : nat) (v : value) : list tv :=
   | S m => (s, v) :: rl_nat (s + d) d m v
   end.
 Definition rl (s d : Z) (n : N) (v : value) : list tv := rl_nat s d (N.to_nat n) v.
+
+(* n blocks of one point each, with their index entries *)
+Definition unit_blocks (l : list tv) : list oblock := map (fun x => ((fst x, fst x, 1%N), [x])) l.
 
 (* a long key is written as its prefix plus n bytes 'x' (a literal of 65535 elements is too
    much for the parser) *)
@@ -427,6 +541,18 @@ Definition check_case (c : case) : N :=
            (spec_snapshot i o)
   | CPlan keys fs groups =>
       code true (spec_plan (map (to_file keys) fs) groups)
+  | CRoll keys size fsn group err before outs after =>
+      let os := map (to_ofile keys) outs in
+      code (Nat.eqb (length before) (length keys) && Nat.eqb (length after) (length keys) && agree_roll group os)
+           (spec_roll size fsn group err (to_reads keys before) os (to_reads keys after))
+  | CDelete keys size fast lo hi fs group dkey err outs live tmp before after =>
+      let i := {| ci_size := size; ci_fast := fast; ci_lo := lo; ci_hi := hi; ci_keys := keys;
+                  ci_fs := map (to_file keys) fs; ci_group := group |} in
+      let o := {| do_err := err; do_outs := map (to_ofile keys) outs; do_live := live; do_tmp := tmp;
+                  do_before := to_reads keys before; do_after := to_reads keys after |} in
+      code (Nat.eqb (length before) (length keys) && Nat.eqb (length after) (length keys)
+            && agree_delete i (resolve keys dkey) o)
+           (spec_delete i (resolve keys dkey) o)
   | CPlanned keys size fast lo hi fs group err before outs after =>
       let i := {| ci_size := size; ci_fast := fast; ci_lo := lo; ci_hi := hi; ci_keys := keys;
                   ci_fs := map (to_file keys) fs; ci_group := group |} in
